@@ -14,7 +14,7 @@ THEOREMS = [
 ]
 MODULE = "LV.Policy.Props"
 TARGETS = ["theories/Policy/Props.vo", "theories/Policy/Exec.vo",
-           "theories/Policy/Examples.vo"]
+           "theories/Policy/Examples.vo", "theories/Policy/GenBridge.vo"]
 HARNESS = ["htlcswitch/verif_policy_test.go"]
 WARM = [{"pkg": "htlcswitch", "files": HARNESS}]
 IMPORTS = ("From Coq Require Import List ZArith NArith.\nImport ListNotations.\n"
